@@ -140,6 +140,19 @@ def _anchors_generic(pos, edges, n, min_sin=1e-3):
     return True
 
 
+def _anchors_ok(pos, edges, n, min_sin=2e-3):
+    """Every anchor is either generic (sin >= min_sin) or collinear to rounding (sin < 1e-12); nothing in between."""
+    adj = gen.adjacency(n, edges)
+    p = np.array(pos)
+    for a in range(n):
+        if len(adj[a]) >= 2:
+            n1, n2 = sorted(adj[a])[:2]
+            sa = XMapModel.sin_angle(p[a], p[n1], p[n2])
+            if 1e-12 <= sa < min_sin:
+                return False
+    return True
+
+
 def generic_positions(rng, n, edges):
     for _ in range(100):
         pos = gen.grow_positions(rng, n, edges, rng.choice([0.1, 0.15, 0.3]))
@@ -235,6 +248,40 @@ def deformation(rng, ref, amp=None, must_be_generic=True):
     return None
 
 
+def collinearised(rng, ref):
+    """A conformation of a generic reference in which ONE anchor is exactly collinear with its two frame neighbours
+    (dyadic coordinates); every other anchor stays generic."""
+    n = len(ref["positions"])
+    adj = gen.adjacency(n, [tuple(e) for e in ref["edges"]])
+    anchors = [i for i in range(n) if len(adj[i]) >= 2]
+    if not anchors:
+        return None
+    for _ in range(30):
+        a = rng.choice(anchors)
+        n1, n2 = sorted(adj[a])[:2]
+        line, _d = collinear_positions(rng, 3, rng.choice(["axis", "diagonal", "intdir"]))
+        pos = [list(p) for p in ref["positions"]]
+        shift = np.round(np.array(pos[a]) * 16) / 16 - np.array(line[0])
+        order = [a, n1, n2]
+        rng.shuffle(order)
+        for idx, p in zip(order, line):
+            pos[idx] = list(map(float, np.array(p) + shift))
+        if not _well_separated(pos):
+            continue
+        P = np.array(pos)
+        ok = True
+        for b in anchors:
+            m1, m2 = sorted(adj[b])[:2]
+            sb = XMapModel.sin_angle(P[b], P[m1], P[m2])
+            if b == a:
+                ok = ok and sb < 1e-12
+            else:
+                ok = ok and (sb >= 2e-3 or sb < 1e-12)
+        if ok:
+            return pos
+    return None
+
+
 def gen_ops(rng, tier, focus, ref, tgt, info, n_res):
     n = len(ref["positions"])
     nops = rng.randint(4, 12) if tier == "quick" else rng.randint(4, 30)
@@ -290,6 +337,9 @@ def gen_ops(rng, tier, focus, ref, tgt, info, n_res):
             n_calls += 1
         elif k == "deformed":
             new = deformation(rng, ref_g)
+            if focus in ("C02", "C03", "C17") and n >= 3 and rng.random() < 0.2:
+                # a conformation in which one anchor has become EXACTLY collinear (the map was built on another geometry)
+                new = collinearised(rng, ref_g) or new
             if new is None:
                 continue
             op = {"op": "call", "conf": "deformed", "positions": new}
@@ -301,8 +351,11 @@ def gen_ops(rng, tier, focus, ref, tgt, info, n_res):
             if n < 3:
                 continue
             base = deformation(rng, ref_g, amp=rng.choice([0.0, 0.05]))
+            if base is None and info["geometry"] != "generic":
+                base = [list(p) for p in ref["positions"]]      # the (collinear) construction geometry itself
             if base is None:
                 continue
+            collinear_ok = info["geometry"] != "generic"
             ops.append({"op": "call", "conf": "deformed", "positions": base, "tag": "locality-base"})
             n_calls += 1
             atoms = list(range(n))
@@ -312,7 +365,8 @@ def gen_ops(rng, tier, focus, ref, tgt, info, n_res):
                     d = np.array(gen.unit_vec(rng)) * rng.uniform(0.01, 0.3)
                     new = np.array(base)
                     new[kk] = new[kk] + d
-                    if _well_separated(new) and _anchors_generic(new, ref_g["edges"], n, 2e-3):
+                    if _well_separated(new) and (_anchors_generic(new, ref_g["edges"], n, 2e-3) or
+                                                 (collinear_ok and _anchors_ok(new, ref_g["edges"], n))):
                         ops.append({"op": "call", "conf": "one_moved", "k": kk, "base": base, "positions": new.tolist()})
                         n_calls += 1
                         break
@@ -332,6 +386,11 @@ def gen_ops(rng, tier, focus, ref, tgt, info, n_res):
             if calls:
                 ops.append({"op": "repeat", "of": rng.choice(calls)})
                 n_calls += 1
+                if rng.random() < 0.5:
+                    # ...and the same argument again, ALMOST: every atom displaced by 1e-9..1e-4 nm.  A map that reuses
+                    # per-call state when the argument "has not moved" by some tolerance returns the stale result
+                    ops.append({"op": "repeat", "of": ops[-1]["of"], "jitter": 10 ** rng.uniform(-9, -4), "jseed": rng.randrange(2 ** 31)})
+                    n_calls += 1
         elif k == "reject":
             ops.append({"op": "reject", "kind": rng.choice(["name", "atom_name", "extra_atom", "none", "residue", "array", "str",
                                                             "moleculetop"])})
@@ -359,7 +418,8 @@ def generate(rng, tier, focus):
     ref, tgt, scale, info, n_res = gen_species(rng, tier, focus)
     ops = gen_ops(rng, tier, focus, ref, tgt, info, n_res)
     tr = {"focus": focus, "ref": ref, "tgt": tgt, "scale": scale, "info": info, "ops": ops,
-          "np_seed": rng.randrange(2 ** 32), "eq_early": rng.random() < 0.5}
+          "np_seed": rng.randrange(2 ** 32), "eq_early": rng.random() < 0.5,
+          "via_alignment": rng.choice([None, None, None, "plain", "nudge"]), "nudge": gen.rvec(rng, 0.2)}
     if len(ref["positions"]) < 3:
         # override script for the frame completion draw (rand(3) in the map): corners / faces of the unit cube
         tr["script"] = {"completion": rng.choice(["none", "none", "corner", "face", "tiny"]),
@@ -445,11 +505,28 @@ class FrameMonitor:
         self.ctx = ctx
         self.orig = orig
         self.last = []
+        self.retained = []       # (returned object, bitwise snapshot at return time)
 
-    def __call__(self, pos):
+    def recheck(self):
+        """Frames handed out earlier must still be what they were when returned (a result that aliases a scratch buffer
+        of the library is overwritten by later calls)."""
+        for out, snap_ in self.retained:
+            try:
+                (v1, v2, v3), origin = out
+                now = np.array([v1, v2, v3], dtype=float)      # (the origin IS the caller's first point, by design)
+            except Exception:
+                continue
+            if not np.array_equal(now, snap_):
+                self.ctx.violate("C17", "returned-frame-changed-later", "a frame returned by calcule_base changed after a LATER call "
+                                                                        f"(returned {snap_[:3].tolist()}, now {now[:3].tolist()})")
+                return False
+        return True
+
+    def __call__(self, pos, *extra, **kw):
+        # (extra arguments a changed implementation may pass are handed through: the monitor judges the returned frame)
         ctx = self.ctx
         before = [np.array(p, dtype=float, copy=True) for p in pos]
-        out = self.orig(pos)
+        out = self.orig(pos, *extra, **kw)
         ctx.counters["frames"] += 1
         try:
             (v1, v2, v3), origin = out
@@ -458,6 +535,8 @@ class FrameMonitor:
         except Exception as e:
             ctx.violate("C17", "frame-shape", f"calcule_base returned something that is not ((v1,v2,v3), origin): {e!r}")
             return out
+        if len(self.retained) < 64:
+            self.retained.append((out, np.array([F[0], F[1], F[2]], dtype=float)))
         after = [np.array(p, dtype=float) for p in pos]
         if any(not np.array_equal(a, b) for a, b in zip(before, after)):
             ctx.violate("C17", "frame-inputs-modified", "calcule_base modified its input points")
@@ -543,6 +622,7 @@ def execute(trace, ctx):
     mon = FrameMonitor(ctx, XM.calcule_base)
     with seam, patched(XM, "calcule_base", mon):
         _execute(trace, ctx, ref_spec, tgt_spec, scale, n, m, ref_pos0, tgt_pos0)
+    mon.recheck()
 
 
 def _execute(trace, ctx, ref_spec, tgt_spec, scale, n, m, ref_pos0, tgt_pos0):
@@ -570,11 +650,28 @@ def _execute(trace, ctx, ref_spec, tgt_spec, scale, n, m, ref_pos0, tgt_pos0):
         scale_arg = int(scale) if float(scale).is_integer() else np.float64(scale)
         ctx.probe("scale_as_int_or_numpy_scalar")
     try:
-        themap = ExchangeMap(ref_live, tgt_live, scale_arg)
+        via = trace.get("via_alignment")
+        if via and not small:
+            # the other way maps are built in practice: Alignment.init_exchange_map on the molecules the alignment holds
+            from gaddlemaps import Alignment
+            ali = Alignment(ref_live, tgt_live)
+            ali.init_exchange_map(scale_arg)
+            if via == "nudge":
+                # the overlap is adjusted on the LIVE end molecule and the map is initialised again with the same scale
+                ali.end.move(np.array(trace.get("nudge", [0.05, -0.03, 0.02])))
+                ali.init_exchange_map(scale_arg)
+            themap = ali.exchange_map
+            ref_live, tgt_live = ali.start, ali.end
+            tgt_pos0 = np.array(tgt_live.atoms_positions, dtype=float)
+            tgt_spec = dict(tgt_spec, positions=tgt_pos0.tolist())
+            ctx.probe("map_built_through_alignment" + ("_after_nudge" if via == "nudge" else ""))
+        else:
+            themap = ExchangeMap(ref_live, tgt_live, scale_arg)
     except Exception as e:
         ctx.op("construct", "raised")
-        ctx.violate("C01", "construction-raised", f"ExchangeMap(ref, tgt, {scale}) raised {type(e).__name__}: {e}",
-                    key=trace["info"]["geometry"])
+        # a map that cannot be built violates every property that speaks about maps: attributed to the property in focus
+        ctx.violate(trace["focus"] if trace.get("focus") in ("C01", "C02", "C03", "C04") else "C01", "construction-raised",
+                    f"ExchangeMap(ref, tgt, {scale}) raised {type(e).__name__}: {e}", key=trace["info"]["geometry"])
         return
     ctx.op("construct", trace["info"]["geometry"])
     model = XMapModel(ref_pos0, [tuple(e) for e in ref_spec["edges"]], tgt_pos0, scale) if not small else None
@@ -757,6 +854,34 @@ def _execute(trace, ctx, ref_spec, tgt_spec, scale, n, m, ref_pos0, tgt_pos0):
             check_c03_shape(pos, rpos)
         if op["conf"] == "one_moved":
             check_c03_locality(op, pos, rpos)
+        if op["conf"] == "deformed" and "R" in op and not small and assignment is not None and not op.get("_inner"):
+            # C02 for a non-construction conformation D: map(R D + t) against R map(D) + t
+            D = np.array(op["positions"], dtype=float)
+            inner = do_call({"op": "call", "conf": "deformed", "positions": op["positions"], "_inner": True}, i)
+            if inner is not None:
+                R = np.array(op["R"])
+                want = inner @ R.T + np.array(op["t"])
+                for k in range(m):
+                    a = assignment[k]
+                    sa = model.anchor_sin(a, D)
+                    if sa >= 1e-3:
+                        dev = float(np.max(np.abs(rpos[k] - want[k])))
+                        if dev > 1e-8 * coord_scale:
+                            ctx.violate("C02", "rigid-motion", f"deformed conformation D: map(R D + t) differs from R map(D) + t by "
+                                                               f"{dev:.3e} nm at target atom {k} (anchor {a})", key="deformed")
+                            break
+                    elif sa < 1e-9:
+                        n1, n2 = model.neigh[a]
+                        u1 = (pos[n2] - pos[a]) / np.linalg.norm(pos[n2] - pos[a])
+                        u0 = (D[n2] - D[a]) / np.linalg.norm(D[n2] - D[a])
+                        i1 = axis_invariants(rpos[k], pos[a], u1)
+                        i0 = axis_invariants(inner[k], D[a], u0)
+                        if max(abs(x - y) for x, y in zip(i1, i0)) > 1e-8 * coord_scale:
+                            ctx.violate("C02", "collinear-axis-invariants", f"conformation with collinear anchor {a}: target atom {k} "
+                                                                            f"has (distance, axial, radial) = {i1}, but {i0} before the "
+                                                                            f"rigid motion", key="deformed-collinear")
+                            break
+                ctx.probe("equivariance_on_deformed_conformation")
         results.append((i, pos, rpos))
         returned.append([res, snap(res)])
         arguments.append([arg, arg_snap])
@@ -887,7 +1012,19 @@ def _execute(trace, ctx, ref_spec, tgt_spec, scale, n, m, ref_pos0, tgt_pos0):
         elif kind == "repeat":
             src = trace["ops"][op["of"]] if op["of"] < len(trace["ops"]) else None
             if src is not None and src.get("op") == "call":
-                do_call(src, i)
+                if op.get("jitter") and src["conf"] != "construction_object":
+                    import random as _r
+                    jr = _r.Random(op["jseed"])
+                    base = conf_positions(src)
+                    moved = base + np.array([[jr.uniform(-1, 1) * op["jitter"] for _ in range(3)] for _ in range(len(base))])
+                    if small or _anchors_generic(moved, ref_spec["edges"], n, 2e-3):
+                        do_call({"op": "call", "conf": "deformed", "positions": moved.tolist()}, i)
+                        ctx.probe("almost_the_same_argument_again")
+                    else:
+                        # a jittered collinear anchor is neither collinear nor generic (ill-conditioned): not judged
+                        do_call(src, i)
+                else:
+                    do_call(src, i)
         elif kind == "reject":
             bad = make_rejected(op["kind"], ref_spec, ref_pos0)
             rejected_objects.append(bad)
